@@ -13,13 +13,51 @@
 (***************************************************************************)
 EXTENDS Integers, Sequences, FiniteSets
 
+\* ---- numbers of every magnitude ---------------------------------------------
+\* TAP numbers (test number, plan size, version) are unbounded decimal numerals.  The specification needs of a
+\* number only its order relative to the other numbers of the stream, its successor (an un-numbered test line is
+\* numbered "previous + 1") and how many digits it takes to write it.  A number is therefore a *magnitude class*
+\* c and a small offset o, meaning  Base(c) + o, and is represented by the integer  c * Scale + o  (TLC integers
+\* are 32 bit).  For |o| < Scale/2 this representation preserves <, =, max and +1, which is all the rule book uses.
+\*    c = 0  o itself          c = 1  2^31 + o        c = 2  2^63 + o       c = 3  10^20 + o
+\*    c = 4  10^4299 + o  (o >= 0: a numeral of 4300 digits)
+\*    c = 5  10^4300 + o  (o >= 0: 4301 digits;  o = -1 is the numeral of 4300 nines)
+\*    c = 6  10^4999 + o  (o >= 0: 5000 digits)
+Scale == 10000000
+Num(c, o) == c * Scale + o
+NumClass(x) == (x + Scale \div 2) \div Scale
+NumOff(x) == x - NumClass(x) * Scale
+\* digits needed to write x (for the classes below 10^4299: an upper bound, they all need at most 21)
+Digits(x) ==
+    LET c == NumClass(x)
+        o == NumOff(x)
+    IN CASE c <= 3 -> 21
+         [] c = 4 -> IF o >= 0 THEN 4300 ELSE 4299
+         [] c = 5 -> IF o >= 0 THEN 4301 ELSE 4300
+         [] OTHER -> IF o >= 0 THEN 5000 ELSE 4999
+
+Max(a, b) == IF a >= b THEN a ELSE b
+Bit(b) == IF b THEN 1 ELSE 0
+
+\* An interpreter of TAP may be unable to represent numerals beyond some length (CPython converts between text
+\* and integers only up to sys.get_int_max_str_digits() = 4300 digits).  The TAP specification does not say what
+\* such a number means to a harness, so the rule book has a parameter lim: 0 = every number is representable;
+\* otherwise a number is representable iff neither the numeral as written (z = its width when it is padded with
+\* leading zeros, 0 = not padded) nor the number itself needs more than lim digits.  A line whose number is not
+\* representable owes exactly one error event and is otherwise ignored; it never makes the parser raise.
+Lims == {0, 4300}
+Rep(lim, x, z) == lim = 0 \/ Max(Digits(x), z) <= lim
+
 \* ---- abstract lines -----------------------------------------------------
 \* k: "test" | "plan" | "bail" | "version" | "ystart" | "yend" | "ibody" |
 \*    "comment" | "blank" | "unknown"
 \* a: ok flag (test, 0/1) ; plan size ; version number ; indent (ystart, ibody)
-\* n: test number, 0 = not given
+\* n: test number, 0 = not given (unless z > 0: `ok 0`, `ok 000`)
 \* d: directive "none" | "skip" | "todo"
-Line(k, a, n, d) == [k |-> k, a |-> a, n |-> n, d |-> d]
+\* z: written width of the number (n of a test line, a of a plan / version line) when it has leading zeros
+LineZ(k, a, n, d, z) == [k |-> k, a |-> a, n |-> n, d |-> d, z |-> z]
+Line(k, a, n, d) == LineZ(k, a, n, d, 0)
+Given(ln) == ln.n # 0 \/ ln.z # 0        \* the test line carries a number
 
 TestLines(maxnum) == { Line("test", ok, n, d) : ok \in {0, 1}, n \in 0..maxnum, d \in {"none", "skip", "todo"} }
 PlanLines(maxplan) == { Line("plan", p, 0, d) : p \in 0..maxplan, d \in {"none", "skip", "todo"} }
@@ -28,6 +66,31 @@ OtherLines == { Line("bail", 0, 0, "none"), Line("version", 12, 0, "none"), Line
                 Line("ibody", 1, 0, "none"), Line("ibody", 2, 0, "none"),
                 Line("comment", 0, 0, "none"), Line("blank", 0, 0, "none"), Line("unknown", 0, 0, "none") }
 Alphabet(maxnum, maxplan) == TestLines(maxnum) \cup PlanLines(maxplan) \cup OtherLines
+
+\* the second alphabet: few line forms, numbers of every magnitude class in the three positions that carry one
+P31 == Num(1, 0)        \* 2^31
+P63 == Num(2, 0)        \* 2^63
+E20 == Num(3, 0)        \* 10^20
+D4300 == Num(4, 0)      \* 10^4299, the first numeral of 4300 digits
+N4300 == Num(5, -1)     \* 4300 nines, the last one
+D4301 == Num(5, 0)      \* 10^4300, the first numeral of 4301 digits
+D5000 == Num(6, 0)      \* 10^4999
+NumberAlphabet ==
+    LET T(n, z) == LineZ("test", 1, n, "none", z)
+        P(a, z) == LineZ("plan", a, 0, "none", z)
+        V(a, z) == LineZ("version", a, 0, "none", z)
+    IN { T(0, 0), T(0, 1), T(1, 0), T(2, 0), T(3, 0), T(1, 3), T(2, 4300), T(2, 4301), T(1, 5000),
+         T(P31, 0), T(P31 + 1, 0), T(P63, 0), T(E20, 0), T(D4300, 0), T(N4300, 0), T(D4301, 0), T(D5000, 0),
+         LineZ("test", 0, D5000, "none", 0), LineZ("test", 1, D4301, "skip", 0), LineZ("test", 1, N4300, "todo", 0) }
+       \cup
+       { P(0, 0), P(1, 0), P(2, 0), P(0, 3), P(2, 4300), P(1, 4301), P(P31, 0), P(P31 + 1, 0), P(P63, 0), P(E20, 0),
+         P(D4300, 0), P(N4300, 0), P(D4301, 0), P(D5000, 0),
+         LineZ("plan", D5000, 0, "skip", 0), LineZ("plan", 0, 0, "skip", 4301) }
+       \cup
+       { V(0, 0), V(12, 0), V(13, 0), V(14, 0), V(13, 4), V(13, 4301), V(P31, 0), V(D4300, 0), V(D4301, 0), V(D5000, 0) }
+       \cup
+       { Line("bail", 0, 0, "none"), Line("ystart", 2, 0, "none"), Line("yend", 2, 0, "none"),
+         Line("comment", 0, 0, "none"), Line("unknown", 0, 0, "none") }
 
 \* ---- events -------------------------------------------------------------
 \* k: "test" | "plan" | "bail" | "version" | "error" | "unknown"
@@ -41,29 +104,29 @@ Result(ok, d) ==
       [] d = "todo" /\ ok = 0 -> "EXPECTEDFAIL"
       [] OTHER -> IF ok = 1 THEN "OK" ELSE "FAIL"
 
-Max(a, b) == IF a >= b THEN a ELSE b
-Bit(b) == IF b THEN 1 ELSE 0
-
 \* ---- operational parser ---------------------------------------------------
 \* st: "main" | "after" (just saw a test line) | "yaml"
-InitP == [st |-> "main", ver |-> 12, plan |-> -1, late |-> FALSE, foundLate |-> FALSE,
-          num |-> 0, last |-> 0, highest |-> 0, bailed |-> FALSE, lineno |-> 0, yind |-> 0]
+InitL(lim) == [st |-> "main", ver |-> 12, plan |-> -1, late |-> FALSE, foundLate |-> FALSE,
+               num |-> 0, last |-> 0, highest |-> 0, bailed |-> FALSE, lineno |-> 0, yind |-> 0, lim |-> lim]
+InitP == InitL(0)
 
 \* how a line is read while in the "main" state (p already has lineno advanced and st = "main")
 MainStep(p, ln) ==
     CASE ln.k \in {"blank", "comment"} -> <<p, <<>>>>
       [] ln.k = "test" ->
            LET lateErr == p.plan >= 0 /\ p.late /\ ~p.foundLate
-               number  == IF ln.n = 0 THEN p.last + 1 ELSE ln.n
+               number  == IF Given(ln) THEN ln.n ELSE p.last + 1
                high    == Max(p.highest, number)
                exceed  == p.plan >= 0 /\ number > p.plan
                evs     == (IF lateErr THEN <<Err("test-after-late-plan")>> ELSE <<>>)
                           \o (IF exceed THEN <<Err("number-exceeds-plan")>> ELSE <<>>)
                           \o <<Ev("test", number, Result(ln.a, ln.d), 0)>>
-           IN <<[p EXCEPT !.foundLate = p.foundLate \/ lateErr, !.num = p.num + 1, !.last = number,
-                          !.highest = high, !.st = "after"], evs>>
+           IN IF ~Rep(p.lim, number, ln.z) THEN <<p, <<Err("invalid-test-number")>>>>
+              ELSE <<[p EXCEPT !.foundLate = p.foundLate \/ lateErr, !.num = p.num + 1, !.last = number,
+                               !.highest = high, !.st = "after"], evs>>
       [] ln.k = "plan" ->
            IF p.plan >= 0 THEN <<p, <<Err("second-plan")>>>>
+           ELSE IF ~Rep(p.lim, ln.a, ln.z) THEN <<p, <<Err("invalid-plan")>>>>
            ELSE LET late == p.num > 0
                     skipped == ln.a = 0 \/ ln.d = "skip"
                     evs == (IF ln.d = "skip" /\ ln.a > 0 THEN <<Err("skip-plan-with-tests")>> ELSE <<>>)
@@ -73,6 +136,7 @@ MainStep(p, ln) ==
       [] ln.k = "bail" -> <<[p EXCEPT !.bailed = TRUE], <<Ev("bail", 0, "", 0)>>>>
       [] ln.k = "version" ->
            IF p.lineno # 1 THEN <<p, <<Err("misplaced-version")>>>>
+           ELSE IF ~Rep(p.lim, ln.a, ln.z) THEN <<p, <<Err("invalid-version")>>>>
            ELSE IF ln.a < 13 THEN <<[p EXCEPT !.ver = ln.a], <<Err("version-too-low")>>>>
            ELSE <<[p EXCEPT !.ver = ln.a], <<Ev("version", ln.a, "", 0)>>>>
       [] OTHER -> <<p, <<Ev("unknown", 0, "", 0)>>>>   \* ystart / yend / ibody / unknown outside a YAML block
@@ -103,14 +167,22 @@ RunFrom(p, s, acc) ==
     IF s = <<>> THEN <<p, acc>>
     ELSE LET r == Step(p, Head(s)) IN RunFrom(r[1], Tail(s), Append(acc, r[2]))
 
-Run(s) == RunFrom(InitP, s, <<>>)
-RunAll(s) == LET r == Run(s) IN Append(r[2], End(r[1]))
+RunL(lim, s) == RunFrom(InitL(lim), s, <<>>)
+RunAllL(lim, s) == LET r == RunL(lim, s) IN Append(r[2], End(r[1]))
+Run(s) == RunL(0, s)
+RunAll(s) == RunAllL(0, s)
 
 \* ---- whole-test verdict (TestRunTAP) -----------------------------------------
 RECURSIVE Flatten(_)
 Flatten(ss) == IF ss = <<>> THEN <<>> ELSE Head(ss) \o Flatten(Tail(ss))
 
 BadResult(r) == r \in {"FAIL", "UNEXPECTEDPASS"}
+
+\* The exit statuses the verdict is quantified over: success; the generic failures 1, 2; the two statuses that
+\* mean something else in the `exitcode` protocol (77 = GNU "skipped", 99 = GNU "hard error") and mean nothing
+\* but "non-zero" for a TAP test; the shell's 126 / 127; 255; and death by signal (negative: SIGABRT, SIGKILL,
+\* SIGSEGV, SIGTERM).
+ExitDomain == {0, 1, 2, 77, 99, 126, 127, 255, -6, -9, -11, -15}
 
 \* bad iff some subtest failed / unexpectedly passed, an error or bail-out happened, or exit status non-zero
 VerdictBad(events, exitcode) ==
@@ -126,5 +198,29 @@ VerdictClass(events, exitcode) ==
     IN IF errs \/ fails \/ exitcode # 0 THEN "BAD"
        ELSE IF \A i \in tests : events[i].r = "SKIP" THEN "SKIP"
        ELSE "OK"
+
+\* The classes of streams the verdict is stated for (what the stream alone amounts to):
+\*   "broken"    an error or bail-out event            "failed"   no such event, a subtest failed / unexpectedly passed
+\*   "empty"     no output at all                       "diag"     output, but no subtest and no plan
+\*   "plan0"     no subtest, plan `1..0`                "plan0skip" no subtest, plan `1..0 # SKIP reason`
+\*   "allskip"   subtests, every one skipped            "passed"   subtests, none bad, not all skipped
+StreamClass(s) ==
+    LET events == Flatten(RunAll(s))
+        tests == { i \in 1..Len(events) : events[i].k = "test" }
+        plans == { i \in 1..Len(s) : s[i].k = "plan" }
+    IN IF \E i \in 1..Len(events) : events[i].k \in {"error", "bail"} THEN "broken"
+       ELSE IF \E i \in tests : BadResult(events[i].r) THEN "failed"
+       ELSE IF tests # {} THEN (IF \A i \in tests : events[i].r = "SKIP" THEN "allskip" ELSE "passed")
+       ELSE IF plans # {} THEN (IF \E i \in plans : s[i].d = "skip" THEN "plan0skip" ELSE "plan0")
+       ELSE IF s = <<>> THEN "empty"
+       ELSE "diag"
+StreamClasses == {"broken", "failed", "empty", "diag", "plan0", "plan0skip", "allskip", "passed"}
+
+\* what a TAP test is reported as, by class of stream and exit status: the exit status can only make it worse,
+\* and every non-zero status does - whatever it would mean under another protocol
+VerdictTable(cls, exitcode) ==
+    IF exitcode # 0 \/ cls \in {"broken", "failed"} THEN "BAD"
+    ELSE IF cls = "passed" THEN "OK"
+    ELSE "SKIP"
 
 =============================================================================
